@@ -107,7 +107,10 @@ class Family:
         os.makedirs(self.path(".cargo"), exist_ok=True)
         with open(self.path("Cargo.toml"), "w") as f:
             f.write(CARGO_TOML % REPO)
-        shutil.copy(os.path.join(REPO, "Cargo.lock"), self.path("Cargo.lock"))
+        for cand in (os.path.join(REPO, "Cargo.lock"), "/repo/Cargo.lock"):
+            if os.path.exists(cand):
+                shutil.copy(cand, self.path("Cargo.lock"))
+                break
         with open(self.path(".cargo", "config.toml"), "w") as f:
             f.write("[net]\noffline = true\n")
         # remove stale program files
